@@ -98,6 +98,21 @@ def _probe(ctx, cls, text, mode):
         ent.placeholder_sequence()
     if ctx.counters["c04_entities_judged"] > before:
         ctx.nontrivial([cls.__name__, text])
+    if (len(text) + ord(text[-1])) % 4 == 0:
+        # the same plasmid handed over as a plain SeqRecord that declares itself circular (what Bio.SeqIO returns): whatever
+        # the class reports for it is judged like any other report; refusing to cut a target out of a record that cannot be
+        # rotated (TypeError) reports nothing
+        from Bio.SeqRecord import SeqRecord
+        ent2 = cls(SeqRecord(Seq(text), "probe", annotations={"topology": "circular"}))
+        ctx.count("c04_plain_seqrecord_probes")
+        try:
+            if ent2.is_valid():
+                ent2.overhang_start(), ent2.overhang_end()
+                ent2.target_sequence()
+                if hasattr(ent2, "placeholder_sequence"):
+                    ent2.placeholder_sequence()
+        except (TypeError, errors.InvalidSequence):
+            pass
 
 
 def _variants(rng, cls, other_classes, count, run_max):
